@@ -483,6 +483,11 @@ class Engine:
             return r
         if isinstance(a, (NArr, SArr)) or isinstance(b, (NArr, SArr)):
             return self.models.array_compare(self, op, a, b)
+        for x in (a, b):  # extension values (pyvc/ext_*.py) may bring their own comparison (e.g. symbolic strings vs str constants)
+            if hasattr(x, "__pyvc_compare__"):
+                r = x.__pyvc_compare__(self, op, a, b)
+                if r is not NotImplemented:
+                    return r
         ka, kb = kind_of(a), kind_of(b)
         if ka is None or kb is None:
             if isinstance(op, (ast.Eq, ast.NotEq)):
